@@ -370,12 +370,134 @@ Fixpoint u2u_loop (fuel : nat) (s : bytes) : bytes :=
 Definition t_utf8_to_unicode (s : bytes) : tres :=
   if is_ascii s then ok_res s false else ok_res (u2u_loop (S (length s)) s) true.
 
+(* ---- jsDecode ---- *)
+Definition js_simple (c : N) : N :=
+  if c =? 97 then 7 else if c =? 98 then 8 else if c =? 102 then 12 else if c =? 110 then 10
+  else if c =? 114 then 13 else if c =? 116 then 9 else if c =? 118 then 11 else c.
+(* one escape: c1 is the byte after the backslash, r1 what follows; returns decoded byte and rest.
+   The octal case is modelled AS CODED: the digit buffer is filled starting at the backslash itself
+   (buf[j] = input[i+j]), so strconv.ParseInt always fails and the decoded byte is 0; the escape
+   consumes the backslash, the first digit and - when present - ONE more byte whatever it is. *)
+Definition js_step (c1 : N) (r1 : bytes) : N * bytes :=
+  match (if c1 =? 117 then
+           match r1 with
+           | h1 :: h2 :: h3 :: h4 :: r5 =>
+             if valid_hex h1 && valid_hex h2 && valid_hex h3 && valid_hex h4 then
+               let v := x2c h3 h4 in
+               Some (if (0 <? v) && (v <? 95) && ((h1 =? 102) || (h1 =? 70)) && ((h2 =? 102) || (h2 =? 70))
+                     then (v + 32) mod 256 else v, r5)
+             else None
+           | _ => None
+           end
+         else None) with
+  | Some p => p
+  | None =>
+    match (if c1 =? 120 then
+             match r1 with
+             | h1 :: h2 :: r3 => if valid_hex h1 && valid_hex h2 then Some (x2c h1 h2, r3) else None
+             | _ => None
+             end
+           else None) with
+    | Some p => p
+    | None => if is_odigit c1 then (0, tl r1) else (js_simple c1, r1)
+    end
+  end.
+Fixpoint js_loop (fuel : nat) (s : bytes) : bytes * bool :=
+  match fuel with
+  | O => ([], false)
+  | S f =>
+    match s with
+    | [] => ([], false)
+    | c :: r =>
+      match r with
+      | c1 :: r1 =>
+        if c =? 92 then let '(v, rest) := js_step c1 r1 in (v :: fst (js_loop f rest), true)
+        else let '(o, ch) := js_loop f r in (c :: o, ch)
+      | [] => ([c], false)
+      end
+    end
+  end.
+Definition t_js_decode (s : bytes) : tres :=
+  if has_backslash s then let '(o, ch) := js_loop (S (length s)) s in ok_res o ch
+  else ok_res s false.
+
+(* ---- cssDecode ---- *)
+Definition is_c_space (c : N) : bool :=
+  (c =? 32) || (c =? 12) || (c =? 10) || (c =? 9) || (c =? 13) || (c =? 11).
+Fixpoint take_hex (n : nat) (s : bytes) : bytes * bytes :=
+  match n with
+  | O => ([], s)
+  | S n' => match s with
+            | h :: r => if valid_hex h then let '(ds, rest) := take_hex n' r in (h :: ds, rest) else ([], s)
+            | [] => ([], [])
+            end
+  end.
+Definition css_code (ds : bytes) : N :=
+  let code := fold_left (fun acc d => acc * 16 + x2c_digit d) ds 0 in
+  let code := if code =? 0 then rune_error else code in
+  if in_rng 65281 65374 code then code - 65248 else code.
+Fixpoint css_loop (fuel : nat) (s : bytes) : bytes :=
+  match fuel with
+  | O => []
+  | S f =>
+    match s with
+    | [] => []
+    | c :: r =>
+      if c =? 92 then
+        match r with
+        | [] => []
+        | c1 :: r1 =>
+          let '(ds, rest) := take_hex 6 r in
+          match ds with
+          | _ :: _ =>
+            encode_rune (css_code ds)
+              ++ css_loop f (match rest with x :: rest' => if is_c_space x then rest' else rest | [] => [] end)
+          | [] => if c1 =? 10 then css_loop f r1 else c1 :: css_loop f r1
+          end
+        end
+      else c :: css_loop f r
+    end
+  end.
+Definition t_css_decode (s : bytes) : tres :=
+  if has_backslash s then ok_res (css_loop (S (length s)) s) true else ok_res s false.
+
+(* ---- removeComments (in-place scan over the input padded with one NUL) ---- *)
+Fixpoint rc_loop (fuel : nat) (s : bytes) (incomment : bool) : bytes * bool :=
+  match fuel with
+  | O => ([], false)
+  | S f =>
+    match s with
+    | [] => if incomment then ([32], true) else ([], false)
+    | c :: r =>
+      if incomment then
+        if is_prefix [42; 47] s then
+          match skipn 2 s with
+          | [] => ([0], true)                      (* the pad byte after the input is copied *)
+          | x :: rest => (x :: fst (rc_loop f rest false), true)
+          end
+        else if is_prefix [45; 45; 62] s then
+          match skipn 3 s with
+          | [] => ([0], true)
+          | x :: rest => (x :: fst (rc_loop f rest false), true)
+          end
+        else (fst (rc_loop f r true), true)
+      else
+        if is_prefix [47; 42] s then (fst (rc_loop f (skipn 2 s) true), true)
+        else if is_prefix [60; 33; 45; 45] s then (fst (rc_loop f (skipn 4 s) true), true)
+        else if is_prefix [45; 45] s then ([], true)
+        else if c =? 35 then ([], true)
+        else let '(o, ch) := rc_loop f r false in (c :: o, ch)
+    end
+  end.
+Definition t_remove_comments (s : bytes) : tres :=
+  let '(o, ch) := rc_loop (S (length s)) s false in ok_res o ch.
+
 (* ---- registry: transformation ids used by the correspondence and by Engine ---- *)
 Inductive tid :=
   | TNone | TLength | TLowercase | TUppercase | TRemoveNulls | TReplaceNulls | TTrim | TTrimLeft
   | TTrimRight | THexEncode | THexDecode | TBase64Encode | TBase64Decode | TBase64DecodeExt
   | TUrlDecode | TUrlEncode | TCmdLine | TRemoveCommentsChar | TReplaceComments | TEscapeSeqDecode
-  | TCompressWhitespace | TRemoveWhitespace | TUtf8ToUnicode.
+  | TCompressWhitespace | TRemoveWhitespace | TUtf8ToUnicode | TJsDecode | TCssDecode | TRemoveComments.
 
 Definition apply_t (t : tid) : bytes -> tres :=
   match t with
@@ -388,6 +510,7 @@ Definition apply_t (t : tid) : bytes -> tres :=
   | TReplaceComments => t_replace_comments | TEscapeSeqDecode => t_escape_seq_decode
   | TCompressWhitespace => t_compress_whitespace | TRemoveWhitespace => t_remove_whitespace
   | TUtf8ToUnicode => t_utf8_to_unicode
+  | TJsDecode => t_js_decode | TCssDecode => t_css_decode | TRemoveComments => t_remove_comments
   end.
 
 (* Rule.executeTransformations: a failing step is counted and skipped (the value stays). *)
